@@ -2,6 +2,7 @@
     Also: fuel monotonicity of [unfold]. *)
 From Coq Require Import ZArith ZifyBool ZifyN Lia.
 From WacV Require Import Str Types Checker SubSpec CheckerEq SubSpecProofs.
+Set Warnings "-unused-intro-pattern".
 
 (** * Fuel monotonicity of the denotation *)
 Definition ext_some {A B} (U U' : A -> option B) : Prop := forall x y, U x = Some y -> U' x = Some y.
@@ -180,9 +181,11 @@ Section Value.
   Proof.
     intros HF Ha Hb. unfold resource. destruct (id_eqb a b) eqn:E.
     - apply ideqb_eq in E as <-. apply decides_ok.
-      destruct g as [|g]; [discriminate|]. cbn [res_name_of] in Ha, Hb.
-      destruct (get_res at_ a) eqn:E1; [|discriminate]. destruct (get_res bt a) eqn:E2; [|discriminate].
-      apply lookup_tag in E1, E2. rewrite <- same in Hb by congruence. congruence.
+      assert (Et : at_ = bt).
+      { destruct g as [|g]; [discriminate|]. cbn [res_name_of] in Ha, Hb.
+        destruct (get_res at_ a) eqn:E1; [|discriminate]. destruct (get_res bt a) eqn:E2; [|discriminate].
+        apply lookup_tag in E1, E2. apply same. congruence. }
+      rewrite <- Et in Hb. congruence.
     - destruct (resolve_res_spec at_ g F a na HF Ha) as [ra [xa [H1 [H2 H3]]]].
       destruct (resolve_res_spec bt g F b nb HF Hb) as [rb [xb [H4 [H5 H6]]]].
       rewrite H1. cbn [bind]. rewrite H2. cbn [idx bind]. rewrite H4. cbn [bind]. rewrite H5. cbn [idx bind].
@@ -190,3 +193,263 @@ Section Value.
       + apply decides_ok. now apply seqb_eq.
       + apply decides_err. now apply seqb_neq.
   Qed.
+
+  Section Rules.
+    Variable rec : valtype -> valtype -> R unit.
+    Variable k : variance.
+    Variables U U' : valtype -> option vtree.
+    Hypothesis Hrec : forall u v tu tv, U u = Some tu -> U' v = Some tv -> decides (rec u v) (tu = tv).
+
+    Lemma tuple_items_spec : forall x y lx ly,
+      all_some (map U x) = Some lx -> all_some (map U' y) = Some ly -> length x = length y ->
+      decides (tuple_items rec x y) (lx = ly).
+    Proof.
+      induction x as [|u x IH]; intros [|v y] lx ly Hx Hy Hl; cbn [length] in Hl; try discriminate.
+      - cbn in Hx, Hy. injection Hx as <-. injection Hy as <-. now apply decides_ok.
+      - cbn [map all_some] in Hx, Hy. cbn [tuple_items].
+        destruct (U u) as [tu|] eqn:Eu; [|discriminate]. destruct (all_some (map U x)) as [lx'|] eqn:Ex; [|discriminate].
+        destruct (U' v) as [tv|] eqn:Ev; [|discriminate]. destruct (all_some (map U' y)) as [ly'|] eqn:Ey; [|discriminate].
+        injection Hx as <-. injection Hy as <-.
+        eapply decides_iff; [|apply decides_bind; [apply (Hrec _ _ _ _ Eu Ev) | apply (IH y lx' ly' eq_refl Ey); lia]].
+        split; [intros [-> ->]; reflexivity | intros H; injection H; auto].
+    Qed.
+    Lemma tuple_spec x y lx ly :
+      all_some (map U x) = Some lx -> all_some (map U' y) = Some ly -> decides (tuple rec x y) (lx = ly).
+    Proof.
+      intros Hx Hy. unfold tuple. destruct (Nat.eqb (length x) (length y)) eqn:E; cbn [negb].
+      - apply Nat.eqb_eq in E. now apply tuple_items_spec.
+      - apply decides_err. apply Nat.eqb_neq in E. intros ->. apply E.
+        apply all_some_length in Hx, Hy. rewrite map_length in Hx, Hy. congruence.
+    Qed.
+
+    Lemma record_fields_spec : forall x y lx ly,
+      map_snd U x = Some lx -> map_snd U' y = Some ly -> length x = length y ->
+      decides (record_fields rec x y) (lx = ly).
+    Proof.
+      unfold map_snd.
+      induction x as [|[an u] x IH]; intros [|[bn v] y] lx ly Hx Hy Hl; cbn [length] in Hl; try discriminate.
+      - cbn in Hx, Hy. injection Hx as <-. injection Hy as <-. now apply decides_ok.
+      - cbn [map all_some fst snd] in Hx, Hy. cbn [record_fields].
+        destruct (U u) as [tu|] eqn:Eu; [|discriminate].
+        destruct (all_some (map _ x)) as [lx'|] eqn:Ex; [|discriminate].
+        destruct (U' v) as [tv|] eqn:Ev; [|discriminate].
+        destruct (all_some (map _ y)) as [ly'|] eqn:Ey; [|discriminate].
+        injection Hx as <-. injection Hy as <-.
+        destruct (str_eqb an bn) eqn:En; cbn [negb].
+        + apply seqb_eq in En as ->.
+          eapply decides_iff; [|apply decides_bind; [apply (Hrec _ _ _ _ Eu Ev) | apply (IH y lx' ly' eq_refl Ey); lia]].
+          split; [intros [-> ->]; reflexivity | intros H; injection H; auto].
+        + apply decides_err. apply seqb_neq in En. intros H. injection H. congruence.
+    Qed.
+    Lemma record_spec x y lx ly :
+      map_snd U x = Some lx -> map_snd U' y = Some ly -> decides (record rec x y) (lx = ly).
+    Proof.
+      intros Hx Hy. unfold record. destruct (Nat.eqb (length x) (length y)) eqn:E; cbn [negb].
+      - apply Nat.eqb_eq in E. now apply record_fields_spec.
+      - apply decides_err. apply Nat.eqb_neq in E. intros ->. apply E.
+        apply map_snd_length in Hx, Hy. congruence.
+    Qed.
+
+    Lemma variant_payload_spec o p o' p' :
+      omap U o = Some o' -> omap U' p = Some p' -> decides (variant_payload rec k o p) (o' = p').
+    Proof.
+      destruct o as [u|], p as [v|]; cbn [omap variant_payload]; intros Ho Hp.
+      - destruct (U u) as [tu|] eqn:Eu; [|discriminate]. destruct (U' v) as [tv|] eqn:Ev; [|discriminate].
+        injection Ho as <-. injection Hp as <-.
+        eapply decides_iff; [|apply (Hrec _ _ _ _ Eu Ev)]. split; [congruence | intros H; now injection H].
+      - destruct (U u); [|discriminate]. injection Ho as <-. injection Hp as <-.
+        destruct k; cbn [ef]; apply decides_err; discriminate.
+      - destruct (U' v); [|discriminate]. injection Ho as <-. injection Hp as <-.
+        destruct k; cbn [ef]; apply decides_err; discriminate.
+      - injection Ho as <-. injection Hp as <-. now apply decides_ok.
+    Qed.
+    Lemma result_arm_spec okarm o p o' p' :
+      omap U o = Some o' -> omap U' p = Some p' -> decides (result_arm rec k okarm o p) (o' = p').
+    Proof.
+      destruct o as [u|], p as [v|]; cbn [omap result_arm]; intros Ho Hp.
+      - destruct (U u) as [tu|] eqn:Eu; [|discriminate]. destruct (U' v) as [tv|] eqn:Ev; [|discriminate].
+        injection Ho as <-. injection Hp as <-.
+        eapply decides_iff; [|apply (Hrec _ _ _ _ Eu Ev)]. split; [congruence | intros H; now injection H].
+      - destruct (U u); [|discriminate]. injection Ho as <-. injection Hp as <-.
+        destruct k; cbn [ef]; apply decides_err; discriminate.
+      - destruct (U' v); [|discriminate]. injection Ho as <-. injection Hp as <-.
+        destruct k; cbn [ef]; apply decides_err; discriminate.
+      - injection Ho as <-. injection Hp as <-. now apply decides_ok.
+    Qed.
+    Lemma payload_spec o p o' p' :
+      omap U o = Some o' -> omap U' p = Some p' -> decides (payload rec o p) (o' = p').
+    Proof.
+      destruct o as [u|], p as [v|]; cbn [omap payload]; intros Ho Hp.
+      - destruct (U u) as [tu|] eqn:Eu; [|discriminate]. destruct (U' v) as [tv|] eqn:Ev; [|discriminate].
+        injection Ho as <-. injection Hp as <-.
+        eapply decides_iff; [|apply (Hrec _ _ _ _ Eu Ev)]. split; [congruence | intros H; now injection H].
+      - destruct (U u); [|discriminate]. injection Ho as <-. injection Hp as <-. apply decides_err; discriminate.
+      - destruct (U' v); [|discriminate]. injection Ho as <-. injection Hp as <-. apply decides_err; discriminate.
+      - injection Ho as <-. injection Hp as <-. now apply decides_ok.
+    Qed.
+
+    Lemma variant_cases_spec : forall x y lx ly,
+      map_snd (omap U) x = Some lx -> map_snd (omap U') y = Some ly -> length x = length y ->
+      decides (variant_cases rec k x y) (lx = ly).
+    Proof.
+      unfold map_snd.
+      induction x as [|[an u] x IH]; intros [|[bn v] y] lx ly Hx Hy Hl; cbn [length] in Hl; try discriminate.
+      - cbn in Hx, Hy. injection Hx as <-. injection Hy as <-. now apply decides_ok.
+      - cbn [map all_some fst snd] in Hx, Hy. cbn [variant_cases].
+        destruct (omap U u) as [tu|] eqn:Eu; [|discriminate].
+        destruct (all_some (map _ x)) as [lx'|] eqn:Ex; [|discriminate].
+        destruct (omap U' v) as [tv|] eqn:Ev; [|discriminate].
+        destruct (all_some (map _ y)) as [ly'|] eqn:Ey; [|discriminate].
+        injection Hx as <-. injection Hy as <-.
+        destruct (str_eqb an bn) eqn:En; cbn [negb].
+        + apply seqb_eq in En as ->.
+          eapply decides_iff; [|apply decides_bind; [apply (variant_payload_spec _ _ _ _ Eu Ev) | apply (IH y lx' ly' eq_refl Ey); lia]].
+          split; [intros [-> ->]; reflexivity | intros H; injection H; auto].
+        + apply decides_err. apply seqb_neq in En. intros H. injection H. congruence.
+    Qed.
+    Lemma variant_spec x y lx ly :
+      map_snd (omap U) x = Some lx -> map_snd (omap U') y = Some ly -> decides (variant rec k x y) (lx = ly).
+    Proof.
+      intros Hx Hy. unfold variant. destruct (Nat.eqb (length x) (length y)) eqn:E; cbn [negb].
+      - apply Nat.eqb_eq in E. now apply variant_cases_spec.
+      - apply decides_err. apply Nat.eqb_neq in E. intros ->. apply E.
+        apply map_snd_length in Hx, Hy. congruence.
+    Qed.
+  End Rules.
+
+  Lemma names_differ_spec : forall a b, length a = length b -> (names_differ a b = false <-> a = b).
+  Proof.
+    induction a as [|x a IH]; intros [|y b] Hl; cbn [length] in Hl; try discriminate; cbn [names_differ].
+    - tauto.
+    - rewrite orb_false_iff, negb_false_iff, seqb_eq, IH by lia. split; [intros [-> ->]; reflexivity | intros H; injection H; auto].
+  Qed.
+  Lemma enum_spec a b : decides (enum_type a b) (a = b).
+  Proof.
+    unfold enum_type. destruct (Nat.eqb (length a) (length b)) eqn:E; cbn [negb].
+    - apply Nat.eqb_eq in E. destruct (names_differ a b) eqn:En.
+      + apply decides_err. intro H. apply (names_differ_spec a b E) in H. congruence.
+      + apply decides_ok. now apply names_differ_spec.
+    - apply decides_err. apply Nat.eqb_neq in E. congruence.
+  Qed.
+  Lemma flags_spec a b : decides (flags a b) (a = b).
+  Proof.
+    unfold flags. destruct (Nat.eqb (length a) (length b)) eqn:E; cbn [negb].
+    - apply Nat.eqb_eq in E. destruct (names_differ a b) eqn:En.
+      + apply decides_err. intro H. apply (names_differ_spec a b E) in H. congruence.
+      + apply decides_ok. now apply names_differ_spec.
+    - apply decides_err. apply Nat.eqb_neq in E. congruence.
+  Qed.
+
+  Lemma primitive_spec k p q : decides (primitive k p q) (VTPrim p = VTPrim q).
+  Proof.
+    unfold primitive. destruct (prim_eqb p q) eqn:E.
+    - apply primeqb_eq in E as ->. now apply decides_ok.
+    - destruct k; cbn [ef]; apply decides_err; intro H; injection H as ->; rewrite primeqb_refl in E; discriminate.
+  Qed.
+
+  (** inversion of [option_map]/[match] shaped equations down to the head constructor *)
+  Ltac inv_some H :=
+    repeat match type of H with
+           | option_map _ ?o = Some _ => destruct o; cbn [option_map] in H; [|discriminate H]
+           | match ?o with _ => _ end = Some _ => destruct o; [|discriminate H]
+           end;
+    try (injection H as <-).
+
+  Lemma defined_type_spec rec k dfuel U U' rn rn' x y da db ta tb :
+    (forall u v tu tv, U u = Some tu -> U' v = Some tv -> decides (rec u v) (tu = tv)) ->
+    get_def at_ x = Some da -> get_def bt y = Some db -> (forall z, da <> DAlias z) -> (forall z, db <> DAlias z) ->
+    unfold_vt_body U rn at_ (VDefined x) = Some ta -> unfold_vt_body U' rn' bt (VDefined y) = Some tb ->
+    (id_eqb x y = true -> ta = tb) ->
+    decides (defined_type rec k dfuel at_ x bt y) (ta = tb).
+  Proof.
+    intros Hrec Ex Ey Hna Hnb Hta Htb Hid. unfold defined_type.
+    destruct (id_eqb x y); [apply decides_ok; auto|]. clear Hid.
+    rewrite Ex, Ey. cbn [idx bind]. cbn [unfold_vt_body] in Hta, Htb. rewrite Ex in Hta. rewrite Ey in Htb.
+    destruct da; try (exfalso; eapply Hna; reflexivity); destruct db; try (exfalso; eapply Hnb; reflexivity);
+      try (cbn [mismatch ef2 desc_def bind]; destruct k; cbn [mismatch ef2 desc_def bind];
+           apply decides_err; intro E; inv_some Hta; inv_some Htb; discriminate E).
+    - (* tuple *)
+      destruct (all_some (map U l)) as [lx|] eqn:E1; [|discriminate]. destruct (all_some (map U' l0)) as [ly|] eqn:E2; [|discriminate].
+      injection Hta as <-. injection Htb as <-.
+      eapply decides_iff; [|apply (tuple_spec rec U U' Hrec _ _ _ _ E1 E2)]. split; [congruence | intros H; now injection H].
+    - destruct (U v) as [tu|] eqn:E1; [|discriminate]. destruct (U' v0) as [tv|] eqn:E2; [|discriminate].
+      injection Hta as <-. injection Htb as <-.
+      eapply decides_iff; [|apply (Hrec _ _ _ _ E1 E2)]. split; [congruence | intros H; now injection H].
+    - destruct (U v) as [tu|] eqn:E1; [|discriminate]. destruct (U' v0) as [tv|] eqn:E2; [|discriminate].
+      injection Hta as <-. injection Htb as <-.
+      destruct (n =? n0) eqn:En; cbn [negb].
+      + apply N.eqb_eq in En as ->. eapply decides_iff; [|apply (Hrec _ _ _ _ E1 E2)]. split; [congruence | intros H; now injection H].
+      + apply decides_err. apply N.eqb_neq in En. intros H. injection H. congruence.
+    - destruct (U v) as [tu|] eqn:E1; [|discriminate]. destruct (U' v0) as [tv|] eqn:E2; [|discriminate].
+      injection Hta as <-. injection Htb as <-.
+      eapply decides_iff; [|apply (Hrec _ _ _ _ E1 E2)]. split; [congruence | intros H; now injection H].
+    - destruct (omap U ok) as [o1|] eqn:E1; [|discriminate]. destruct (omap U err) as [e1|] eqn:E2; [|discriminate].
+      destruct (omap U' ok0) as [o2|] eqn:E3; [|discriminate]. destruct (omap U' err0) as [e2|] eqn:E4; [|discriminate].
+      injection Hta as <-. injection Htb as <-.
+      eapply decides_iff; [|apply decides_bind; [apply (result_arm_spec rec k U U' Hrec true _ _ _ _ E1 E3)
+                                                | apply (result_arm_spec rec k U U' Hrec false _ _ _ _ E2 E4)]].
+      split; [intros [-> ->]; reflexivity | intros H; injection H; auto].
+    - destruct (map_snd (omap U) cases) as [lx|] eqn:E1; [|discriminate].
+      destruct (map_snd (omap U') cases0) as [ly|] eqn:E2; [|discriminate].
+      injection Hta as <-. injection Htb as <-.
+      eapply decides_iff; [|apply (variant_spec rec k U U' Hrec _ _ _ _ E1 E2)]. split; [congruence | intros H; now injection H].
+    - destruct (map_snd U fields) as [lx|] eqn:E1; [|discriminate].
+      destruct (map_snd U' fields0) as [ly|] eqn:E2; [|discriminate].
+      injection Hta as <-. injection Htb as <-.
+      eapply decides_iff; [|apply (record_spec rec U U' Hrec _ _ _ _ E1 E2)]. split; [congruence | intros H; now injection H].
+    - injection Hta as <-. injection Htb as <-.
+      eapply decides_iff; [|apply flags_spec]. split; [congruence | intros H; now injection H].
+    - injection Hta as <-. injection Htb as <-.
+      eapply decides_iff; [|apply enum_spec]. split; [congruence | intros H; now injection H].
+    - destruct (omap U o) as [o1|] eqn:E1; [|discriminate]. destruct (omap U' o0) as [o2|] eqn:E2; [|discriminate].
+      injection Hta as <-. injection Htb as <-.
+      eapply decides_iff; [|apply (payload_spec rec U U' Hrec _ _ _ _ E1 E2)]. split; [congruence | intros H; now injection H].
+    - destruct (omap U o) as [o1|] eqn:E1; [|discriminate]. destruct (omap U' o0) as [o2|] eqn:E2; [|discriminate].
+      injection Hta as <-. injection Htb as <-.
+      eapply decides_iff; [|apply (payload_spec rec U U' Hrec _ _ _ _ E1 E2)]. split; [congruence | intros H; now injection H].
+  Qed.
+
+  Lemma desc_vt_nonalias t F v : nonalias t v -> exists D, desc_vt (S F) t v = Ok D.
+  Proof.
+    destruct v as [p|r|r|d]; cbn [desc_vt nonalias]; try (eexists; reflexivity).
+    intros [x [E Hx]]. rewrite E. cbn [idx bind]. destruct x; try (eexists; reflexivity). exfalso. eapply Hx. reflexivity.
+  Qed.
+
+  (** The value-level rule decides equality of the denotations. *)
+  Lemma value_type_spec g : forall F k a b ta tb, (g <= F)%nat ->
+    unfold_vt g at_ a = Some ta -> unfold_vt g bt b = Some tb -> decides (value_type F k at_ a bt b) (ta = tb).
+  Proof.
+    induction g as [|g IH]; intros F k a b ta tb HF Ha Hb; [discriminate|].
+    destruct F as [|F]; [lia|].
+    destruct (resolve_vt_spec at_ (S g) (S F) a ta HF Ha) as [a' [Ra [Ua Na]]].
+    destruct (resolve_vt_spec bt (S g) (S F) b tb HF Hb) as [b' [Rb [Ub Nb]]].
+    cbn [value_type]. rewrite Ra, Rb. cbn [bind].
+    rewrite unfold_vt_eq in Ua, Ub.
+    assert (Hmis : forall (r : R unit), vhead ta <> vhead tb ->
+                     r = mismatch k (desc_vt (S F)) a' at_ b' bt -> decides r (ta = tb)).
+    { intros r Hh ->. destruct (desc_vt_nonalias at_ F a' Na) as [D1 E1]. destruct (desc_vt_nonalias bt F b' Nb) as [D2 E2].
+      unfold mismatch. destruct k; cbn [ef2]; rewrite E1, E2; cbn [bind]; apply decides_err; congruence. }
+    destruct a' as [p|r|r|x], b' as [q|s|s|y];
+      try (apply Hmis; [|reflexivity]; cbn [unfold_vt_body] in Ua, Ub;
+           try (destruct Na as [da [Ea Hna]]; rewrite Ea in Ua; destruct da; try (exfalso; eapply Hna; reflexivity));
+           try (destruct Nb as [db [Eb Hnb]]; rewrite Eb in Ub; destruct db; try (exfalso; eapply Hnb; reflexivity));
+           inv_some Ua; inv_some Ub; cbn [vhead]; discriminate).
+    - cbn [unfold_vt_body] in Ua, Ub. injection Ua as <-. injection Ub as <-. apply primitive_spec.
+    - cbn [unfold_vt_body] in Ua, Ub.
+      destruct (res_name_of (S g) at_ r) as [na|] eqn:E1; [|discriminate].
+      destruct (res_name_of (S g) bt s) as [nb|] eqn:E2; [|discriminate].
+      injection Ua as <-. injection Ub as <-.
+      eapply decides_iff; [|apply (resource_spec (S g) (S F) k r s na nb HF E1 E2)]. split; [congruence | intros H; now injection H].
+    - cbn [unfold_vt_body] in Ua, Ub.
+      destruct (res_name_of (S g) at_ r) as [na|] eqn:E1; [|discriminate].
+      destruct (res_name_of (S g) bt s) as [nb|] eqn:E2; [|discriminate].
+      injection Ua as <-. injection Ub as <-.
+      eapply decides_iff; [|apply (resource_spec (S g) (S F) k r s na nb HF E1 E2)]. split; [congruence | intros H; now injection H].
+    - destruct Na as [da [Ea Hna]]. destruct Nb as [db [Eb Hnb]].
+      eapply (defined_type_spec _ k (S F) (unfold_vt g at_) (unfold_vt g bt) _ _ x y da db ta tb); try eassumption.
+      + intros u v tu tv Hu Hv. apply (IH F k u v tu tv); [lia | assumption | assumption].
+      + intro Hid. apply ideqb_eq in Hid. subst y.
+        assert (Et : at_ = bt). { apply same. apply lookup_tag in Ea, Eb. congruence. }
+        rewrite <- Et in Ub. congruence.
+  Qed.
+End Value.
